@@ -110,25 +110,39 @@ structure BPlane where
   e : V3
   h : V3
 
-/-- `bplane(orb)`; `aAbs` stands for `abs(orb.infos.kep.a)` (the cartesian → keplerian conversion belongs to C01) -/
-def bplane (mu aAbs : R) (r v : V3) : BPlane :=
+/-- eccentricity vector `(vn² r − (r·v) v)/µ − r/rn` -/
+def eccVec (mu : R) (r v : V3) : V3 :=
   let rn := V3.norm r
   let vn := V3.norm v
-  let e := V3.sub (V3.sdiv (V3.sub (V3.smul (powi vn 2) r) (V3.smul (V3.dot r v) v)) mu) (V3.sdiv r rn)
+  V3.sub (V3.sdiv (V3.sub (V3.smul (powi vn 2) r) (V3.smul (V3.dot r v) v)) mu) (V3.sdiv r rn)
+
+/-- `S = ê cos β + (ĥ × ê) sin β` with `β = arccos(1/e)` -/
+def bpS (en : R) (eh hh : V3) : V3 :=
+  let β := acos (1 / en)
+  V3.add (V3.smul (cos β) eh) (V3.smul (sin β) (V3.cross hh eh))
+
+/-- `T = S × N / |S × N|`, `N = (0, 0, 1)` -/
+def bpT (S : V3) : V3 :=
+  let N : V3 := ⟨0, 0, 1⟩
+  V3.sdiv (V3.cross S N) (V3.norm (V3.cross S N))
+
+/-- `B = B_norm · S × ĥ`, `B_norm = |a| √(e² − 1)` -/
+def bpB (aAbs en : R) (S hh : V3) : V3 :=
+  let B_norm := aAbs * sqrt (powi en 2 - 1)
+  V3.smul B_norm (V3.cross S hh)
+
+/-- `bplane(orb)`; `aAbs` stands for `abs(orb.infos.kep.a)` (the cartesian → keplerian conversion belongs to C01) -/
+def bplane (mu aAbs : R) (r v : V3) : BPlane :=
+  let e := eccVec mu r v
   let e_norm := V3.norm e
   let eh := V3.sdiv e e_norm
   let h := V3.cross r v
-  let h_norm := V3.norm h
-  let hh := V3.sdiv h h_norm
-  let β := acos (1 / e_norm)
-  let S := V3.add (V3.smul (cos β) eh) (V3.smul (sin β) (V3.cross hh eh))
-  let N : V3 := ⟨0, 0, 1⟩
-  let T := V3.sdiv (V3.cross S N) (V3.norm (V3.cross S N))
+  let hh := V3.sdiv h (V3.norm h)
+  let S := bpS e_norm eh hh
+  let T := bpT S
   let Rv := V3.cross S T
-  let B_norm := aAbs * sqrt (powi e_norm 2 - 1)
-  let B := V3.smul B_norm (V3.cross S hh)
-  let BT := V3.dot B T
-  let θ := acos (BT / (V3.norm B * V3.norm T))
+  let B := bpB aAbs e_norm S hh
+  let θ := acos (V3.dot B T / (V3.norm B * V3.norm T))
   ⟨B, θ, S, T, Rv, e, h⟩
 
 end BeyondVerif.F
